@@ -1,10 +1,20 @@
 #!/bin/sh
 # MANIFEST.setup_cmd — build the framework from files on disk only (offline).
-set -e
 cd "$(dirname "$0")/.."
 export CARGO_NET_OFFLINE=true
-python3 translator/rs2lean.py /repo lean/BumpProof/Gen
-(cd lean && lake build BumpProof Driver driver)
+python3 translator/rs2lean.py /repo lean/BumpProof/Gen || echo "setup: translator failed (checks will report it)"
+[ -f translator/sigs2lean.py ] && (python3 translator/sigs2lean.py /repo lean/BumpProof/Gen || echo "setup: sigs2lean failed")
+(cd lean && lake build driver) || echo "setup: driver build failed (checks will report it)"
+# property modules: each is rebuilt (no-op when cached) by its own check; warm the cache here
+for f in lean/BumpProof/Props/C*.lean; do
+  m=$(basename "$f" .lean)
+  (cd lean && lake build "BumpProof.Props.$m" >/dev/null 2>&1) || echo "setup: BumpProof.Props.$m does not build yet"
+done
 [ -f harness/Cargo.lock ] || cp /repo/Cargo.lock harness/Cargo.lock
-(cd harness && RUSTFLAGS="--cfg bump_scope_verif" cargo build --offline --quiet --bins && RUSTFLAGS="--cfg bump_scope_verif" cargo build --offline --quiet --release --bin purefn)
-echo "setup ok"
+for f in harness/src/bin/*.rs; do
+  b=$(basename "$f" .rs)
+  (cd harness && RUSTFLAGS="--cfg bump_scope_verif" cargo build --offline --quiet --bin "$b") || echo "setup: harness bin $b does not build yet"
+done
+(cd harness && RUSTFLAGS="--cfg bump_scope_verif" cargo build --offline --quiet --release --bin purefn --bin findings) || echo "setup: release bins failed"
+echo "setup done"
+exit 0
